@@ -30,7 +30,7 @@ namespace Adept.Views
 /-- one argument of `Array::operator()` in a call that returns an `IndexedArray` -/
 inductive Sel
   | at (e : EndExpr)                    -- scalar `int` or rank-0 expression (`end - k`): dimension dropped
-  | range (b e : EndExpr) (s : Int)     -- `range(b,e)` (s = 1) / `stride(b,e,s)`
+  | range (b e s : EndExpr)             -- `range(b,e)` (s = `lit 1`) / `stride(b,e,s)`
   | all                                 -- `__`
   | vec (es : List EndExpr)             -- rank-1 integer expression: its entries (`.fromEnd k` for `end - k`)
 deriving Repr, DecidableEq
@@ -49,7 +49,7 @@ def checkIdx (checked : Bool) (len : Nat) (i : Int) : Except Err Int :=
 def selSize (checked : Bool) (len : Nat) : Sel → Except Err Nat
   | .at _ => .ok 1
   | .range b e s => do
-      let (_, n, _) ← updateRange checked len 0 b e s
+      let (_, n, _) ← updateRange checked len 0 b e (s.resolve len)
       .ok n
   | .all => .ok len
   | .vec es => .ok es.length
@@ -60,7 +60,7 @@ def selValue (checked : Bool) (len : Nat) : Sel → Int → Except Err Int
   | .at e, _ => checkIdx checked len (e.resolve len)                -- `j` is 0
   | .range b _ s, j => do
       let bi ← getIndexWithLen checked b len                        -- `begin(len) + stride(len)*j`
-      checkIdx checked len (bi + s * j)
+      checkIdx checked len (bi + s.resolve len * j)
   | .all, j => checkIdx checked len j
   | .vec es, j =>
       match es[j.toNat]? with
@@ -76,6 +76,18 @@ def ixDims (checked : Bool) : List Nat → List Sel → Except Err (List Nat)
       let rest ← ixDims checked ds ss
       .ok (n :: rest)
   | _, _ => .error .bad_rank
+
+/-- the index expressions of one selector -/
+def Sel.exprs : Sel → List EndExpr
+  | .at e => [e]
+  | .range b e s => [b, e, s]
+  | .all => []
+  | .vec es => es
+
+/-- every index expression of the call can be evaluated for the dimension it indexes (no division by zero) -/
+def selsDefined : List Nat → List Sel → Bool
+  | d :: ds, s :: ss => s.exprs.all (·.defined d) && selsDefined ds ss
+  | _, _ => true
 
 /-- an `IndexedArray`: the array it refers to (`a_`), the index objects and `dimensions_` -/
 structure IView where
@@ -146,7 +158,7 @@ def applyStores (mem : Int → Int) : List (Int × Int) → Int → Int
     of a range, `j` under `__`, entry number `j` of an index vector -/
 def selIndex (d : Nat) : Sel → Int → Int
   | .at e, _ => e.resolve d
-  | .range b _ s, j => b.resolve d + s * j
+  | .range b _ s, j => b.resolve d + s.resolve d * j
   | .all, j => j
   | .vec es, j => (es.getD j.toNat (.lit 0)).resolve d
 
@@ -161,7 +173,7 @@ def expandSel : List Nat → List Sel → List Int → List Int
     the number of entries for an index vector -/
 def selExtents : List Nat → List Sel → List Nat
   | _ :: ds, .at _ :: ss => selExtents ds ss
-  | d :: ds, .range b e s :: ss => ((e.resolve d + s - b.resolve d).tdiv s).toNat :: selExtents ds ss
+  | d :: ds, .range b e s :: ss => ((e.resolve d + s.resolve d - b.resolve d).tdiv (s.resolve d)).toNat :: selExtents ds ss
   | d :: ds, .all :: ss => d :: selExtents ds ss
   | _ :: ds, .vec es :: ss => es.length :: selExtents ds ss
   | _, _ => []
